@@ -70,11 +70,14 @@ def benign(err):
 def segments(trace):
     """split a trace into run() calls: [(N, nfe_before, [step records], nfe_after)];
     step record = dict(nfe=, batches=[(members, calls, nfe_before, nfe_after)], exposed=, sizes=)"""
-    segs, cur, steps, batches, b, calls, evolves, restarts = [], None, [], [], None, 0, [], []
+    segs, cur, steps, batches, b, calls, evolves, restarts, checks = [], None, [], [], None, 0, [], [], []
     for ev in trace.events:
         k = ev[0]
         if k == "evolve":
             evolves.append(ev[1])
+            continue
+        if k == "check":
+            checks.append({"population": ev[1], "archive": ev[2], "result": ev[3], "par": tuple(ev[4:9]), "cls": ev[9]})
             continue
         if k == "restart":
             restarts.append({"archive": ev[1], "ratio": ev[2], "min": ev[3], "max": ev[4], "arity": ev[5], "batches_before": len(batches)})
@@ -90,9 +93,9 @@ def segments(trace):
             b = None
         elif k == "step":
             steps.append({"nfe": ev[1], "batches": batches, "exposed": ev[2], "sizes": ev[3], "evolves": evolves,
-                          "population_size": ev[4] if len(ev) > 4 else None, "restarts": restarts,
+                          "population_size": ev[4] if len(ev) > 4 else None, "restarts": restarts, "checks": checks,
                           "population_size_attr": ev[5] if len(ev) > 5 else None})
-            batches, evolves, restarts = [], [], []
+            batches, evolves, restarts, checks = [], [], [], []
         elif k == "run_end":
             segs.append({"N": cur[0], "nfe_before": cur[1], "steps": steps, "nfe_after": ev[1], "dangling_batches": batches})
             cur = None
@@ -113,6 +116,40 @@ def note_aborted(ctx, cfg, err):
 
 GEN_STYLE = {"NSGAII": 0, "EpsNSGAII": 0, "SPEA2": 0, "NSGAIII": 0, "IBEA": 0, "GeneticAlgorithm": 1, "EvolutionaryStrategy": 2, "EpsMOEA": 3,
              "GDE3": 4, "MOEAD": 5, "PESA2": 6, "PAES": 7, "OMOPSO": 8, "SMPSO": 8, "CMAES": 8}
+
+
+def timecont_replay(ctx, ask, segs, inp):
+    """when `check` is called and what it answers (Model/TimeCont.lean, Props/C08TimeCont.lean): from the population and archive
+    sizes at the calls and the run() boundaries, the model must call `check` in exactly the same iterations, answer the same, and
+    a restart must follow exactly the positive answers"""
+    from common import wlist
+    allsteps = [st for sg in segs for st in sg["steps"]]
+    cks = [c for st in allsteps for c in st.get("checks", [])]
+    if not cks or any(sg["nfe_after"] is None for sg in segs) or segs[0]["nfe_before"] != 0:
+        return
+    par = {c["par"] for c in cks}
+    window, maxw, ratio, lo, hi = next(iter(par))
+    if len(par) != 1 or {c["cls"] for c in cks} != {"AdaptiveTimeContinuationExtension"} or float(ratio) != int(ratio) \
+            or any(len(st["checks"]) > 1 for st in allsteps):
+        ctx.count("timecont_runs_skipped_outside_model")
+        return
+    evs, want = [], []
+    for sg in segs:
+        for i, st in enumerate(sg["steps"]):
+            ck = st["checks"][0] if st["checks"] else None
+            evs += [1 if i == 0 else 0, ck["population"] if ck else 0, ck["archive"] if ck else 0]
+            want.append(f"{1 if ck else 0}{1 if st['restarts'] else 0}")
+            if ck and bool(ck["result"]) != bool(st["restarts"]):
+                ctx.disagree("time continuation: a restart follows exactly the positive answers of check", dict(inp, iteration=len(want)),
+                             f"check={ck['result']}", f"restarts={len(st['restarts'])}")
+    tinp = dict(inp, window=window, max_window=maxw, ratio=ratio, min_population_size=lo, max_population_size=hi,
+                run_start_flag_population_archive_per_iteration=evs[:180], observed_checked_restart_per_iteration=want[:60])
+    ask(f"tcont {window} {maxw} {int(ratio)} {lo} {hi} {wlist(evs)}",
+        lambda g, want=want, tinp=tinp: None if g.split(" ")[:-1] == want
+        else ctx.disagree("time continuation model (postStep: when check is called, what it answers)", tinp, " ".join(want)[:300], g[:300]))
+    ctx.count("timecont_histories_replayed")
+    ctx.count("timecont_checks_replayed", len(cks))
+    ctx.count("timecont_checks_answered_restart", sum(1 for c in cks if c["result"]))
 
 
 def restart_replay(ctx, ask, alg, segs, allsteps, counts, inp):
@@ -171,6 +208,8 @@ def genstep_replay(ctx, ask, alg, segs, inp):
         return
     gsize = alg.swarm_size if style == 8 and hasattr(alg, "swarm_size") else (alg.offspring_size if style == 8 else getattr(alg, "population_size", None))
     counts = [c for st in allsteps for c in st["evolves"]]
+    if style == 0:
+        timecont_replay(ctx, ask, segs, inp)
     if style == 0 and any(st.get("restarts") for st in allsteps):
         return restart_replay(ctx, ask, alg, segs, allsteps, counts, inp)
     if style != 5 and any(len(st["batches"]) != 1 for st in allsteps):
